@@ -148,7 +148,50 @@ def run(prog, rep):
             okc = dsz is not None and bound is not None and bound + 1 <= dsz
             rep.ob("C16.1", ps, "strcpy#%d" % nsp, okc, "strcpy (%s[%s], <= %s bytes + NUL)" % (dst, dsz, bound) if okc else
                    "strcpy into %s[%s] from a string of up to %s bytes" % (dst, dsz, bound), c)
-    rep.floor("C16.1", 8)
+    # hand-built strings are terminated: a local char array that is filled byte by byte (`buf[n++] = c`) is a string only after a
+    # zero byte was stored behind the last byte written; every call that reads the array as a string (p_strdup, strlen, ...) is
+    # reached with that store made after the last byte store on the path.  (Arrays filled by sscanf / fgets / strcpy are
+    # terminated by those calls.)
+    WRITERS = {"sscanf": None, "__isoc99_sscanf": None, "fgets": (0,), "memset": (0,), "strcpy": (0,), "strncpy": (0,), "memcpy": (0,), "snprintf": (0,), "sprintf": (0,),
+               "__builtin___memset_chk": (0,), "__builtin___strcpy_chk": (0,), "__builtin___memcpy_chk": (0,), "__builtin_memset": (0,), "__builtin_memcpy": (0,), "__builtin_strcpy": (0,)}
+    nterm = 0
+    for fn_ in sorted(u.functions.values(), key=lambda f: f.loc[0]):
+        arrs = set()
+        for (b, i, n) in fn_.nodes(elsewhere=True):
+            if n["k"] == "asg" and strip_casts(n["l"])["k"] == "idx":
+                base = strip_casts(strip_casts(n["l"])["base"])
+                if base is not None and base["k"] == "ref" and base.get("decl") == "local" and arr_size(fn_, base["name"]) and cv(n["r"]) is None:
+                    t_ = u.type_of(strip_casts(n["l"]))
+                    if t_ and t_.get("k") == "int" and t_.get("w") == 8:
+                        arrs.add(base["name"])
+        for A in sorted(arrs):
+            unterminated = []
+
+            def ts(st, b, i, stmt, A=A, unterminated=unterminated):
+                facts, clean = st
+                for n in walk(stmt):
+                    if n["k"] == "call":
+                        for ai, a in enumerate(n.get("args", ())):
+                            a2 = strip_casts(a)
+                            if a2 is not None and a2["k"] == "ref" and a2["name"] == A:
+                                w = WRITERS.get(n.get("callee"), ())
+                                if n.get("callee") in WRITERS and (w is None or ai in w):
+                                    clean = True
+                                elif not clean:
+                                    unterminated.append((line(n), n.get("callee")))
+                    if n["k"] == "asg" and strip_casts(n["l"])["k"] == "idx" and root_var(n["l"]) == A:
+                        clean = cv(n["r"]) == 0
+                return [(guards.transfer(facts, stmt), clean)]
+
+            def te(st, b, to, on):
+                f2 = guards.edge_assume(st[0], b, on)
+                return None if f2 is None else (f2, st[1])
+            Flow(fn_, [(guards.EMPTY, False)], ts, te, max_states=20000).run()
+            nterm += 1
+            rep.ob("C16.1", fn_, "terminated:" + A, not unterminated, "%s is handed on as a string only after a zero byte was stored behind the last byte written into it" % A if not unterminated else
+                   "line %d: %s is read as a string by %s on a path where the last store into it was a data byte: without the terminating zero the element continues with whatever an "
+                   "earlier, longer element left in the buffer" % (unterminated[0][0], A, unterminated[0][1]), unterminated[0][0] if unterminated else fn_.loc[0])
+    rep.floor("C16.1", 8 + 1)
 
     # ---- C16.2 -----------------------------------------------------------------------------
     producers = [(f, c) for f in u.roots(skip=tuple(sorted(keep))) for (b, i, c) in f.calls() if c.get("callee") == "pp_ini_file_parameter_new"]
@@ -511,7 +554,67 @@ def run(prog, rep):
     rep.ob("C16.8", ps, "bytes", not dead and nbyte > 0, "%d comparisons of line bytes with constants read the byte at a type that holds the constant" % nbyte if (not dead and nbyte) else
            ("line %d: a line byte read as %s is compared with 0x%X, which that type cannot hold: the test never succeeds, the byte-order mark is not skipped and the header on the "
             "first line is not recognised" % (line(dead[0][0]), dead[0][2], dead[0][1]) if dead else "no byte comparison found in the parse loop"), dead[0][0] if dead else ps.loc[0])
-    rep.floor("C16.8", 1)
+    # the byte-order-mark table: the number of bytes skipped in front of the line is the length of the standard mark the line
+    # starts with, and 0 otherwise.  Decided on the slice from the fgets that filled the buffer to the trim call that takes
+    # `buffer + skip`: (a) wherever a non-zero skip k reaches the trim call, the path has tested the first k bytes equal to one
+    # standard mark of k bytes; (b) with the bytes of a mark assumed after the fgets, every path arrives with skip = its length;
+    # (c) a line that starts with '[' arrives with skip 0.  (UTF-32 LE, FF FE 00 00, starts with the UTF-16 LE mark: either length.)
+    BOMS = [(0xEF, 0xBB, 0xBF), (0xFE, 0xFF), (0xFF, 0xFE), (0x00, 0x00, 0xFE, 0xFF), (0xFF, 0xFE, 0x00, 0x00)]
+    chomps = [c for (b, i, c) in ps.calls() if c.get("callee") == "p_strchomp" and root_var(c["args"][0]) == linebuf]
+    shiftv = None
+    for c in chomps:
+        a = strip_casts(c["args"][0])
+        if a is not None and a["k"] == "bin" and a["op"] == "+":
+            for side in ("l", "r"):
+                e_ = strip_casts(a[side])
+                if e_ is not None and e_["k"] == "ref" and e_["name"] != linebuf:
+                    shiftv = e_["name"]
+    if shiftv is not None:
+        def bom_run(assumed):
+            arrivals = []
+
+            def bs(st, b, i, stmt):
+                for c in calls(stmt):
+                    if any(c is x for x in chomps):
+                        arrivals.append((guards.lookup(st, shiftv), st, line(c)))
+                        return []
+                return [guards.transfer(st, stmt)]
+
+            def be(st, b, to, on):
+                f2 = guards.edge_assume(st, b, on)
+                if f2 is not None and assumed and on == "true" and b.cond is not None and any(c.get("callee") == "fgets" for c in calls(b.cond)):
+                    for k_, v_ in enumerate(assumed):
+                        if v_ is not None and f2 is not None:
+                            f2 = guards.add_fact(f2, "%s[%d]" % (linebuf, k_), "==", v_)
+                return f2
+            Flow(ps, [guards.EMPTY], bs, be, max_states=6000).run()
+            return arrivals
+        arr = bom_run(None)
+        bad = None
+        for (k_, st_, ln_) in arr:
+            if k_ is None:
+                bad = (ln_, "the number of bytes skipped in front of the line is not a constant on a path")
+            elif k_ > 0 and not any(len(P) == k_ and all(guards.lookup(st_, "%s[%d]" % (linebuf, j)) == P[j] for j in range(k_)) for P in BOMS):
+                known = ["%s[%d]==0x%02X" % (linebuf, j, guards.lookup(st_, "%s[%d]" % (linebuf, j))) for j in range(4) if guards.lookup(st_, "%s[%d]" % (linebuf, j)) is not None]
+                bad = (ln_, "%d bytes are skipped in front of a line of which only %s is known: that is no %d-byte byte-order mark, the first characters of an ordinary line are cut off" % (
+                    k_, ", ".join(known) or "nothing", k_))
+        rep.ob("C16.8", ps, "bom:only-marks", bool(arr) and bad is None, "bytes are skipped in front of a line only after the tests for a whole standard byte-order mark of that length succeeded"
+               if (arr and bad is None) else (("line %d: %s" % bad) if bad else "the trim call was not reached"), bad[0] if bad else ps.loc[0])
+        for P in BOMS[:4]:
+            assumed = list(P) + ([None] * (4 - len(P)))
+            if len(P) == 2:
+                assumed[2] = 0x5B         # not the longer UTF-32 form
+            arr = bom_run(assumed)
+            wrong = [(k_, ln_) for (k_, st_, ln_) in arr if k_ != len(P)]
+            rep.ob("C16.8", ps, "bom:%s" % "".join("%02X" % x for x in P), bool(arr) and not wrong, "a line starting with the mark %s is trimmed from byte %d" % (" ".join("%02X" % x for x in P), len(P))
+                   if (arr and not wrong) else ("line %d: a line that starts with the byte-order mark %s reaches the trim with %s bytes skipped instead of %d: the mark stays in front of the header "
+                                                "and the first section of the file is lost" % (wrong[0][1], " ".join("%02X" % x for x in P), wrong[0][0], len(P)) if wrong else "the trim call was not reached"),
+                   wrong[0][1] if wrong else ps.loc[0])
+        arr = bom_run([0x5B, None, None, None])
+        wrong = [(k_, ln_) for (k_, st_, ln_) in arr if k_ != 0]
+        rep.ob("C16.8", ps, "bom:none", bool(arr) and not wrong, "a line starting with '[' is trimmed from byte 0" if (arr and not wrong) else
+               ("line %d: a header line without any mark loses its first %s bytes" % (wrong[0][1], wrong[0][0]) if wrong else "the trim call was not reached"), wrong[0][1] if wrong else ps.loc[0])
+    rep.floor("C16.8", 1 + (6 if shiftv is not None else 0))
 
     # ---- C16.7 -----------------------------------------------------------------------------
     rep.rule("C16.7", "value pipeline: what the parse loop stores is the trimmed text - a section name and a key/value pair reach their constructors only as copies of "
@@ -639,6 +742,16 @@ def run(prog, rep):
 RENAME_LOCALS = ['src/pinifile.c']
 
 SELFTEST = [
+    dict(id="list-last-element-unterminated", file="src/pinifile.c", expect="C16.1",
+         old="\tif (buf_cnt > 0) {\n\t\tbuf[buf_cnt] = '\\0';\n", new="\tif (buf_cnt > 0) {\n"),
+    dict(id="list-buffer-no-initial-zero-neutral", file="src/pinifile.c", expect=None,
+         old="\tstr = val + 1;\n\tbuf[0] = '\\0';\n", new="\tstr = val + 1;\n"),
+    dict(id="bom-utf8-first-byte-negated", file="src/pinifile.c", expect="C16.8",
+         old="if ((puchar) src_line[0] == 0xEF && (puchar) src_line[1] == 0xBB", new="if ((puchar) src_line[0] != 0xEF && (puchar) src_line[1] == 0xBB"),
+    dict(id="bom-utf16-or-for-and", file="src/pinifile.c", expect="C16.8",
+         old="((puchar) src_line[0] == 0xFF && (puchar) src_line[1] == 0xFE))", new="((puchar) src_line[0] == 0xFF || (puchar) src_line[1] == 0xFE))"),
+    dict(id="bom-utf8-shift-two", file="src/pinifile.c", expect="C16.8",
+         old="\t\t\tbom_shift = 3;", new="\t\t\tbom_shift = 2;"),
     dict(id="bom-bytes-compared-as-plain-char", file="src/pinifile.c", expect="C16.8",
          old="\t\tif ((puchar) src_line[0] == 0xEF && (puchar) src_line[1] == 0xBB && (puchar) src_line[2] == 0xBF)", new="\t\tif (src_line[0] == 0xEF && src_line[1] == 0xBB && src_line[2] == 0xBF)"),
     dict(id="empty-quotes-tested-before-trim", expect="C16.7", edits=[
